@@ -639,6 +639,66 @@ theorem c08_exception_counted_even_if_unprintable (cfg : Cfg) (H : Hashes) (s : 
   rw [hb.1]
   simp [brStep, applyKind]
 
+/-! ### payloads that cannot be rendered (`runP`) — open finding C08-unrenderable-payload-failure-uncounted -/
+
+/-- OPEN FINDING C08-unrenderable-payload-failure-uncounted, the part that holds: when every payload the gate
+    renders on this request can be rendered, `runP` is `run` — every theorem of this file applies; and in any case a
+    request whose rendering fails records NOTHING: both agents are consulted, the breaker is left as the admission
+    left it (no success, no failure), nothing is cached, nothing comes back. -/
+theorem c08_unrenderable_payload_partial (cfg : Cfg) (H : Hashes) (s : State) (p : Prompt) (zr yr : RespP) :
+    (renderFails cfg.gate zr yr = false → runP cfg H s p zr yr = run cfg H s p zr.resp yr.resp) ∧
+    (runP cfg H s p zr yr ≠ run cfg H s p zr.resp yr.resp →
+      (runP cfg H s p zr yr).2 = ⟨.raised, none⟩ ∧
+      (runP cfg H s p zr yr).1.br = (lookup cfg H s p).1.br ∧
+      (runP cfg H s p zr yr).1.cache = (lookup cfg H s p).1.cache ∧
+      (runP cfg H s p zr yr).1.execCalls = (lookup cfg H s p).1.execCalls + 1 ∧
+      (runP cfg H s p zr yr).1.assessCalls = (lookup cfg H s p).1.assessCalls + 1) := by
+  rcases runP_cases cfg H s p zr yr with h | ⟨hf, _, h⟩
+  · exact ⟨fun _ => h, fun hne => absurd h hne⟩
+  · refine ⟨fun h' => (by rw [hf] at h'; cases h'), fun _ => ?_⟩
+    rw [h]
+    simp [callAssessor, callExecutor]
+
+/-- the look-up phase never records a failure or a success: at most it moves an open breaker to half-open -/
+theorem c08_lookup_records_nothing (cfg : Cfg) (H : Hashes) (s : State) (p : Prompt) :
+    (lookup cfg H s p).1.br.failures = s.br.failures ∧ (lookup cfg H s p).1.br.successes = s.br.successes ∧
+    (lookup cfg H s p).1.br.totalErrors = s.br.totalErrors ∧ (lookup cfg H s p).1.br.lastFailure = s.br.lastFailure ∧
+    (lookup cfg H s p).1.br.trips = s.br.trips := by
+  have hlc : ∀ s' : State, (lookupCache cfg H s' p).1.br = s'.br := by
+    intro s'
+    unfold lookupCache
+    cases cfg.cacheOn <;> cases p.enc <;> simp
+    have := (checkCache_fst cfg H s' p).1
+    generalize checkCache cfg H s' p = ck at this
+    obtain ⟨s1, o⟩ := ck
+    cases o <;> simpa using this
+  unfold lookup
+  cases hb : cfg.breakerOn
+  · simp [hlc]
+  · simp only [↓reduceIte]
+    rw [checkCircuit_eq]
+    by_cases h1 : s.br.cstate = CState.opened ∧ elapsedOk cfg s.now s.br = false
+    · simp [h1]
+    · rw [if_neg h1]
+      simp only [hlc]
+      split <;> simp
+
+-- FULL (false on the current tree): an executor FAILURE that nobody vetoes is a failure outcome, whatever its payload:
+--   zr.resp = .ret .failure → yr.resp = .ret y → y ≠ .block → ¬(cfg.gate = .or ∧ y = .permit) → admitted, no cache hit →
+--     (runP cfg H s p zr yr).1.br.failures = s.br.failures + 1
+/-- OPEN FINDING C08-unrenderable-payload-failure-uncounted, the witness: threshold 1, the executor reports FAILURE
+    with a payload whose `__str__` raises (`ActionProtein.payload` is `Any`).  `_apply_gate_logic` raises while
+    formatting the block reason — outside the `try` of `run` — so nothing is recorded: the breaker stays closed with
+    failure count 0 and the agents are consulted again on every further request; with a renderable payload the same
+    request opens the breaker. -/
+theorem c08_unrenderable_failure_uncounted_witness :
+    let cfg : Cfg := { threshold := 1 }
+    let bad := runP cfg idHashes init ⟨1, true⟩ ⟨.ret .failure, false⟩ ⟨.ret .other, true⟩
+    let good := runP cfg idHashes init ⟨1, true⟩ ⟨.ret .failure, true⟩ ⟨.ret .other, true⟩
+    bad.2 = ⟨.raised, none⟩ ∧ bad.1.br = {} ∧ bad.1.execCalls = 1 ∧ bad.1.assessCalls = 1 ∧
+    (runP cfg idHashes bad.1 ⟨2, true⟩ ⟨.ret .failure, false⟩ ⟨.ret .permit, true⟩).1.execCalls = 2 ∧
+    good.2.kind = .gated .failure ∧ good.1.br.cstate = .opened := by decide
+
 /-! ### Non-vacuity: concrete histories meeting the hypotheses -/
 
 private def cfg2 : Cfg := { threshold := 2, timeout := 60 }
